@@ -9,6 +9,7 @@ pub mod c08;
 pub mod c09;
 pub mod c11;
 pub mod c13;
+pub mod c16;
 pub mod replay;
 
 use crate::common::{Coverage, Ctx};
@@ -27,6 +28,7 @@ pub fn dispatch(ctx: &Ctx) -> Option<Coverage> {
         "C10" => c02::run_c10(ctx),
         "C11" => c11::run_c11(ctx),
         "C13" => c13::run(ctx),
+        "C16" => c16::run(ctx),
         "C12" => c11::run_c12(ctx),
         _ => return None,
     })
